@@ -10,6 +10,8 @@ import FordModel.ProjectLoop
 import FordModel.Lemmas.ProjectLoop
 import FordModel.Lemmas.Nesting
 import FordModel.Lemmas.Backtrack
+import FordModel.Lemmas.Markup
+import FordModel.TypeSpec
 namespace Ford.C20
 open Ford
 
@@ -380,6 +382,105 @@ theorem reports_only_grow (cfg : Cfg) (st : MS) (more : List Stmt) (st2 : MS)
     (h : run cfg st more = .ok st2) : ∃ extra, st2.reps = st.reps ++ extra :=
   (run_inv _ _ _ _ h).2.2.1
 
+/-! ## the diagnostic: what reaches the terminal when a file is rejected -/
+
+/-- **Escaped text is inert** (`rich.markup.escape` followed by `rich.markup.render`, as they are):
+    whatever the text contains - brackets, closing-tag look-alikes such as `[/ 1.0 /]`, backslashes -
+    nothing of it is interpreted as a tag, rendering does not raise, and what is shown is the text
+    itself (a single trailing backslash comes out doubled).  Partial: a backslash directly in front
+    of a `[` that opens no tag (`lostBackslash`; `render` drops it), and - when emoji codes are
+    replaced - a `:...:` without blanks (`emojiCandidate`), are excluded. -/
+theorem escaped_text_shown_verbatim_partial (cfg : Markup.Cfg) (msg : Str)
+    (hl : Markup.lostBackslash msg = false) (he : cfg.emoji = false ∨ Markup.emojiCandidate msg = false) :
+    ∃ t, (t = [] ∨ t = ['\\']) ∧ Markup.render cfg (Markup.escape msg) = .shown (msg ++ t) :=
+  Markup.render_escape cfg msg hl he
+
+/-- **`warn` hands its message over inertly** (generated table `Gen.warnSpec`, ford/console.py):
+    either as `escape(msg)` at the end of one markup string whose literal part consists of complete
+    tags, or as a `Text` after a markup literal. -/
+theorem warn_message_is_inert : (Markup.inertShape Gen.emojiSample Gen.warnSpec).isSome = true := by
+  decide +kernel
+
+/-- **What a warning shows.**  For every message (outside the two excluded classes when the
+    message is escaped rather than passed as `Text`), `warn(msg)` puts the literal prefix and then
+    the message itself on the terminal: nothing in the message can make it raise or vanish. -/
+theorem warn_shows_message_partial (i : Markup.Inert) (msg : Str)
+    (hi : Markup.inertShape Gen.emojiSample Gen.warnSpec = some i)
+    (hs : Markup.safeMsg Gen.warnSpec i msg = true) :
+    ∃ t, (t = [] ∨ t = ['\\']) ∧
+      Markup.warnShown Gen.emojiSample Gen.warnSpec msg = .shown (i.pre ++ msg ++ t) :=
+  Markup.warn_inert _ _ i msg hi hs
+
+/-- **The per-file handler** of `Project.__init__` (generated table `Gen.handlerSteps`): re-raise
+    unless `dbg`, warn, go on with the next file (the `continue` may be left out when nothing
+    follows) - nothing else (this is what `loadFrom` models). -/
+theorem handler_warns_and_continues :
+    Gen.handlerSteps = [.reraiseUnlessDbg, .warn, .continue_] ∨ Gen.handlerSteps = [.reraiseUnlessDbg, .warn] := by
+  decide
+
+/-- **A rejected file is named in the diagnostic.**  The message of the handler (generated table
+    `Gen.rejectionMsg`) contains the path of the file of *this* iteration, and `warn` shows it:
+    for every path and every exception text, the path appears on the terminal, character by
+    character. -/
+theorem rejected_file_named_on_terminal_partial (i : Markup.Inert) (path err : Str)
+    (hi : Markup.inertShape Gen.emojiSample Gen.warnSpec = some i)
+    (hs : Markup.safeMsg Gen.warnSpec i (Markup.rejectionMsg Gen.rejectionMsg path err) = true) :
+    ∃ a b, Markup.warnShown Gen.emojiSample Gen.warnSpec (Markup.rejectionMsg Gen.rejectionMsg path err)
+      = .shown (a ++ path ++ b) := by
+  obtain ⟨t, _, e⟩ := warn_shows_message_partial i _ hi hs
+  obtain ⟨a, b, e2⟩ := Markup.rejectionMsg_names Gen.rejectionMsg path err (by decide)
+  exact ⟨i.pre ++ a, b ++ t, by rw [e, e2]; simp⟩
+
+/-- **The real `warn` does so too** (table `Gen.warnProbes`, regenerated on every run by calling
+    `ford.console.warn` on messages with brackets, closing-tag look-alikes, backslashes and emoji
+    codes): on every probe the model shows what the terminal showed. -/
+theorem warn_probes : ∀ p ∈ Gen.warnProbes, Markup.warnObs Gen.emojiSample Gen.warnSpec p.1 = p.2 := by
+  decide +kernel
+
+/-- **The progress bar survives the file names** it is given (`Gen.progressSpec`, ford/utils.py):
+    showing the current file cannot raise when the column is not rendered as markup, or when the
+    path contains nothing that looks like a tag.  Partial: with the column as it is (markup, not
+    escaped) a path with a tag look-alike is excluded - finding C20-progress-markup-abort. -/
+theorem progress_display_survives_partial (path : Str)
+    (h : Gen.progressSpec.markup = false ∨ (Gen.progressSpec.escaped = false ∧ Markup.hasTag path = false)) :
+    Markup.progressObs Gen.emojiSample Gen.progressSpec path ≠ .raised :=
+  Markup.progress_survives _ _ path h
+
+/-- ... and the real progress bar agrees with the model on the probes (`Gen.progressProbes`). -/
+theorem progress_probes :
+    ∀ p ∈ Gen.progressProbes,
+      (Markup.progressObs Gen.emojiSample Gen.progressSpec p.1 == .raised) = p.2 := by
+  decide +kernel
+
+open Ford.TypeSpec in
+/-- **Witness: what `escape` is there for.**  Were the message handed to `console.print` as it is
+    (every `str` argument is markup), the offending line `& = [/ 1.0 /]` of a reader error would
+    raise `MarkupError` inside the handler - the whole run aborts - and the `[old]` of
+    `solver[old].f90` would vanish from the diagnostic. -/
+theorem unescaped_message_witness :
+    let raw : Markup.WarnSpec := { args := [.markup [.lit (chars! "[bold red]Warning:[/]")], .markup [.msg]] }
+    Markup.warnShown [] raw (chars! "Error parsing m.f90. '&': & = [/ 1.0 /]") = .raised
+    ∧ Markup.warnShown [] raw (chars! "Error parsing solver[old].f90.")
+        = .shown (chars! "Warning: Error parsing solver.f90.") := by
+  decide +kernel
+
+open Ford.TypeSpec in
+/-- **Witness (finding C20-progress-markup-abort).**  The column of the progress bar as it is -
+    markup, the path not escaped: a file called `z[/b].f90` makes rendering raise. -/
+theorem progress_markup_abort_witness :
+    Markup.progressObs [] { markup := true, escaped := false } (chars! "src/z[/b].f90") = .raised
+    ∧ Markup.progressObs [] { markup := false } (chars! "src/z[/b].f90") = .shown (chars! "src/z[/b].f90") := by
+  decide +kernel
+
+open Ford.TypeSpec in
+/-- **Witness (finding C20-diagnostic-rewrites-name): what the two exclusions are.**  Escaped and
+    rendered, `a\[1].f90` comes out as `a[1].f90` and `z:x:.f90` with the emoji for `x`. -/
+theorem escape_quirks_witness :
+    Markup.render {} (Markup.escape (chars! "a\\[1].f90")) = .shown (chars! "a[1].f90")
+    ∧ Markup.render { tbl := [(['x'], some ['X'])] } (Markup.escape (chars! "z:x:.f90")) = .shown (chars! "zX.f90")
+    ∧ Markup.lostBackslash (chars! "a\\[1].f90") = true ∧ Markup.emojiCandidate (chars! "z:x:.f90") = true := by
+  decide +kernel
+
 /-! non-vacuity -/
 example : (match step {} initMS ⟨.module, "m".toList⟩ false with
            | .ok st1 => st1.stack.length | .error _ => 0) = initMS.stack.length + 1 := by decide
@@ -396,6 +497,12 @@ example : (opened {} [⟨.module, ['m']⟩, ⟨.contains, []⟩, ⟨.subroutine,
 example : Gen.patterns.length ≥ 50 ∧ (Gen.patterns.map (fun p => (Rx.loopsCF p.2 true).length)).sum ≥ 150 := by decide +kernel
 example : Gen.patterns.any (fun p => (Rx.loopsCF p.2 true).any (fun a => match a with | .cls _ => false | _ => true)) = true := by
   decide +kernel
+open Ford.TypeSpec in
+example : ∃ i, Markup.inertShape Gen.emojiSample Gen.warnSpec = some i
+    ∧ Markup.safeMsg Gen.warnSpec i (Markup.rejectionMsg Gen.rejectionMsg (chars! "src/solver[old].f90") (chars! "& = [/ 1.0 /]")) = true := by
+  decide +kernel
+example : Gen.warnProbes.length ≥ 10 ∧ Gen.progressProbes.length ≥ 6
+    ∧ (Gen.warnProbes.any (fun p => p.1.any (· == '[') && p.1.any (· == '/'))) = true := by decide +kernel
 example : parseFile { dbg := false } [⟨.contains, []⟩] = .skipped .printError [] := by decide
 example : parseFile { skipReported := true } [⟨.contains, []⟩] = .skipped .reported [.unexpectedContains] := by decide
 
